@@ -1,5 +1,8 @@
 //! yverif: property-based / fuzzing harness deciding the properties C01..C20 of yata.
 pub mod approx;
+pub mod cfggen;
+pub mod dyni;
+pub mod dynm;
 pub mod engine;
 pub mod gen;
 pub mod refm;
